@@ -23,7 +23,7 @@ CHECKS = {
    text="Breadth-first search over histories of {source-slot change + backup(P|Q), backup killed at a storage operation, delete, gc} from four seed archives; after every archive event every live complete version is restored and compared with the tree model and 'latest complete' is resolved. Exhaustive to the stated depth, so it covers orders of events no fixture samples. Plus: the latest complete version among hand-written versions at ids 8-10, 98-100, 9998-10000 for every completeness pattern.",
    note="Trusts the tree model (materialize/observe on tmpfs as root) and the masking of start/end timestamps in state keys; bounded depth (quick 2, thorough 3) and a 4-slot source universe."),
  'C03': dict(cat='fault_enumeration', tech=E2C, eng='E2-crash', ref='DESIGN.md 4/C03',
-   text="For twelve scenarios (one with block files above 2 MiB) (thorough: plus every history state to depth 2) the backup is stopped before every mutating storage operation and, for every write, also with the target left as an empty file; each crashed archive is judged on eight clauses (opens, old versions exact, latest complete version still found, no dangling reference by the independent reader, stitched listing/restore of the interrupted version, follow-up backup exact, any band with a tail exact, no error report from a clean interruption).",
+   text="For thirteen scenarios (one with block files above 2 MiB, one with two directories of which the first loses files) (thorough: plus every history state to depth 2) the backup is stopped before every mutating storage operation and, for every write, also with the target left as an empty file; each crashed archive is judged on eight clauses (opens, old versions exact, latest complete version still found, no dangling reference by the independent reader, stitched listing/restore of the interrupted version - also listed under each of its directories and with one directory excluded -, follow-up backup exact, any band with a tail exact, no error report from a clean interruption).",
    note="Crash granularity is one storage operation plus the empty-file leftover; torn contents and partial remove_dir_all are not modelled. Trusts the independent format-0.6 reader."),
  'C04': dict(cat='fault_enumeration', tech=E2F, eng='E2-fault', ref='DESIGN.md 4/C04',
    text="Every operation of the backup's storage trace (reads included) fails with each of four error kinds, plus a storage outage from every point on, plus all fault pairs (deviation bound 2); the independent reader then compares every recorded file entry with the source bytes and the success/error reporting is judged. A sub-sweep through the tool's own command line runs backups under a file-size limit (ulimit -f with SIGXFSZ ignored) so that every write beyond 0, 1 and 64 KiB fails part way with a real EFBIG, with and without zero-length leftovers of the big blocks.",
@@ -44,10 +44,10 @@ CHECKS = {
    text="Healthy side: full and quick validate on every state of the history graph whose bands all have heads must be silent. Damage side: every file of three archives x {delete, truncate 0, truncate half, garbage} and every (quick: every 8th) single-bit flip of every block; whenever any version's restore outcome changes, validate must report. A sub-sweep drives the same operations through the tool's own command-line front end (src/bin/conserve.rs compiled next to the harness).",
    note="Removal of a BANDTAIL, and removal/emptying of the last hunk of an incomplete band (states an interrupted backup leaves), are excluded."),
  'C10': dict(cat='fault_enumeration', tech="exhaustive enumeration of single-file damage at rest, every read operation and a backup run on each damaged archive", eng='E2-damage', ref='DESIGN.md 4/C10',
-   text="Every file except the archive header of three archives x {delete, truncate 0, truncate half, garbage} and every (quick: every 8th) single-bit flip of every file; versions, list and restore of every band, validate (full, quick), a new backup and its restore run on each; no panic or hang, untouched files exact, lost files reported, backup after delete/empty damage exact.",
+   text="Every file except the archive header of three archives x {delete, truncate 0, truncate half, garbage} and every (quick: every 8th) single-bit flip of every file; versions, list and restore of every band, validate (full, quick), a new backup and its restore run on each; no panic or hang, untouched files exact, lost files reported (an interrupted version is judged also on the entries it takes over from the versions below it), backup after delete/empty damage exact.",
    note="In-process watchdog reports hangs as violations. A flipped hunk that still decodes is judged on no-crash and untouched files only."),
  'C11': dict(cat='model_checking', tech=E1I, eng='E1-inputs', ref='DESIGN.md 4/C11',
-   text="Validity on every string over a 10-component alphabet to length 4 (three slash variants), comparison on every ordered pair (2.4M) and triple (17M) of valid paths against an independent comparator and validator, subtree contiguity on the sorted list, and on every tree shape over the names menu: source-walk order, index and listing order under two block layouts, and the stitched listing of a second version killed after each hunk. Two fixed larger trees (prefix-named sibling directories three levels deep) are walked, backed up and listed under four hunk sizes.",
+   text="Validity on every string over a 10-component alphabet to length 4 (three slash variants), comparison on every ordered pair (2.4M) and triple (17M) of valid paths against an independent comparator and validator, subtree contiguity on the sorted list, and on every tree shape over the names menu: source-walk order, index and listing order under two block layouts, and the stitched listing of a second version killed after each hunk, whole and under each of its first three directories. Two fixed larger trees (prefix-named sibling directories three levels deep) are walked, backed up and listed under four hunk sizes.",
    note="The documented order is read component-wise as the statement spells out. Depth <= 4 components."),
  'C12': dict(cat='model_checking', tech=E1I, eng='E1-inputs', ref='DESIGN.md 4/C12',
    text="Every tree shape over prefix-colliding and multi-byte names is backed up; every entry, every top-level name and two missing paths are listed as subtree and compared with the component-prefix rule; every directory is restored as subtree and compared with the full restore; the same for interrupted versions (for every entry, a second backup without it killed after each hunk, listed and restored by subtree against its own full listing/restore). A sub-sweep drives the same operations through the tool's own command-line front end (src/bin/conserve.rs compiled next to the harness).",
@@ -56,19 +56,19 @@ CHECKS = {
    text="Every archive state reached - history graph, every crash state of the standard scenarios, every archive written under every single storage fault and outage, every input of the C01 sweeps under all 24 option points (incl. a band of more than 10000 hunks) - is read by an independent format-0.6 reader written from doc/format.md and judged (only documented files, hunk numbering and placement, order within and across hunks, tail count, block naming/hash, addresses inside blocks, addrs only on files summing to the size, target only on symlinks, no lock left behind).",
    note="Zero-length files (leftover of a killed write) are skipped. Independent reader is the trusted base."),
  'C14': dict(cat='model_checking', tech=E1H + "; " + E1I + "; " + E2C, eng='E1+E2', ref='DESIGN.md 4/C14',
-   text="(a) every C01 input is backed up three times (the third under other settings): no write issued for a block already stored within a run, no block write and identical addresses for the unchanged tree, every file counted unmodified; (b) the op log of every backup event of the history graph: no block path written while present, and an unchanged tree writes nothing and records the newest complete version's addresses; (c) every crash point of the standard scenarios plus two unchanged-tree scenarios is followed by a resumed backup whose log and entries are judged.",
+   text="(a) every C01 input is backed up three times (the third under other settings and without recording owners): no write issued for a block already stored within a run, no block write and identical addresses for the unchanged tree, every file counted unmodified; (b) the op log of every backup event of the history graph: no block path written while present, and an unchanged tree writes nothing and records the newest complete version's addresses; (c) every crash point of the standard scenarios plus two unchanged-tree scenarios is followed by a resumed backup whose log and entries are judged.",
    note="'Unchanged' means equal to the newest complete version with only interrupted attempts at the same tree in between."),
  'C15': dict(cat='model_checking', tech=E1I, eng='E1-inputs', ref='DESIGN.md 4/C15',
    text="Every tree shape over a names menu, and three wide trees under seven hunk sizes, x every set of at most two patterns from a 15-pattern menu (quick: generated shapes meet single patterns, pairs meet the wide trees): entries stored by backup-with-exclusions, listed with exclusions and restored with exclusions are compared with each other and with the ancestor rule; every pattern set is also given through a pattern file and must decide every probe path the same way. A sub-sweep drives the same operations through the tool's own command-line front end (src/bin/conserve.rs compiled next to the harness).",
    note="Oracle uses the same glob primitive (globset, literal_separator); root entry left out; trees <= 3 (quick) / 4 (thorough) nodes."),
  'C16': dict(cat='model_checking', tech=E1I + "; plus crash-point enumeration for the stitched case", eng='E1-inputs', ref='DESIGN.md 4/C16',
-   text="Every tuple of at most three symlink targets (upward, absolute, '.', '..', siblings, dangling) x subtree x exclude x destination state is restored inside a sandbox whose sentinels (content, mode, owner, mtime) must be unchanged; a pre-populated destination must be refused untouched; and for every target and two names a version in which a directory (with nested entries) and two files became that symlink is interrupted at every crash point and restored, restored again over the result, and restored with each single index-hunk read failing. A sub-sweep drives the same operations through the tool's own command-line front end (src/bin/conserve.rs compiled next to the harness).",
+   text="Every tuple of at most three symlink targets (upward, absolute, '.', '..', siblings, dangling) x subtree x exclude x destination state is restored inside a sandbox whose sentinels (content, mode, owner, mtime) must be unchanged; a pre-populated destination must be refused untouched; and for every target and two names a version in which a directory (with nested entries) and two files became that symlink is interrupted at every crash point and restored, restored with exactly the turned path (and a directory below it) as the subtree, restored again over the result, and restored with each single index-hunk read failing. A sub-sweep drives the same operations through the tool's own command-line front end (src/bin/conserve.rs compiled next to the harness).",
    note="Sandbox root mtime not compared. Runs as root."),
  'C17': dict(cat='model_checking', tech=E1H + "; each transition re-executed under other runtime flavours", eng='E1-histories', ref='DESIGN.md 4/C17',
    text="Every backup/delete/gc transition of the history graph is re-executed from the same parent snapshot on multi-thread runtimes with 2 and 8 workers, with reversed block-deletion order and on a runtime that ends the moment the operation returns, and the archives compared byte for byte modulo the two timestamps; state riders replay partially failing multi-version deletes, the next backup and gc with each directory listing (thorough: each read) failing under two forced completion orders, and refused operations on an archive holding someone else's lock.",
    note="Inductive argument over the history; depth 2 (quick) / 3 (thorough). Completion orders of concurrent reads are forced (failure first on the current-thread runtime, failure delayed on two workers), other multi-thread schedules are whatever tokio does."),
  'C18': dict(cat='model_checking', tech=E1I, eng='E1-inputs', ref='DESIGN.md 4/C18',
-   text="Three base trees (incl. prefix-named sibling directories and half-named owners) x every set of at most 3 (thorough 4) mutations from a menu of 23: diff with and without include_unchanged and the next backup's change callback are compared with the difference of the two tree models. A sub-sweep drives the same operations through the tool's own command-line front end (src/bin/conserve.rs compiled next to the harness).",
+   text="Three base trees (incl. prefix-named sibling directories and half-named owners) x every set of at most 3 (thorough 4) mutations from a menu of 23: diff with and without include_unchanged and the next backup's change callback are compared with the difference of the two tree models; a further backup that leaves a directory and a file out by pattern must report exactly the files the new version no longer holds as deleted. A sub-sweep drives the same operations through the tool's own command-line front end (src/bin/conserve.rs compiled next to the harness).",
    note="Change callback compared on paths that are regular files (in the new tree for added/changed, in the old one for deleted); directory mtimes are not a change."),
 }
 
